@@ -47,6 +47,8 @@ def run(ctx):
             continue
         pa = P["parse_arguments"].get(arm["args_fn"])
         ao = P["additional_operands"].get(kind)
+        if pa is not None and pa["form"] == "irregular":
+            continue      # see snapshot_params: the MIR legs decide
         if pa is None or ao is None or pa["kind"] != kind or pa["form"] != ao["form"]:
             ctx.ob("%s/tables-present" % kind, None, "parser/reflection tables missing or of different form")
             continue
@@ -192,6 +194,10 @@ def snapshot_params(ctx, q, rp, P, snap, enums, masks):
             ctx.ob("snapshot/parse_arguments/%s" % fn, None, "not in the pinned grammar")
             continue
         kind = cur["kind"]
+        if cur["form"] == "irregular":
+            # not readable token-wise (restructured by hand): decided by the MIR legs below, which execute the function itself
+            ctx.extra.setdefault("irregular_parse_arguments", []).append(fn)
+            continue
         cmap = {}
         for names, ops in cur["entries"]:
             for nm in names:
@@ -206,6 +212,9 @@ def snapshot_params(ctx, q, rp, P, snap, enums, masks):
             if a != b:
                 val = (dict(enums[kind]["variants"]).get(nm) if kind in enums else dict(masks[kind]["consts"]).get(nm)) or 0
                 real = rp.ask("operand_params %s %d" % (kind, val))
+                if real.get("parsed") == b:
+                    ctx.inconclusive.append(("snapshot/parse_arguments/%s/%s" % (kind, nm), "the token reading (%s) differs from the pinned grammar but the compiled parser consumes exactly %s" % (a, b)))
+                    continue
                 ctx.violation("operand-params/%s/parser-vs-grammar/%s" % (kind, nm),
                               "%s::%s: the parser consumes %s, the pinned grammar lists %s" % (kind, nm, a, b),
                               {"cmd": "operand_params %s %d" % (kind, val), "real": real})
